@@ -37,7 +37,8 @@ def evil(i):
 GET_BEHAVIOURS = ["cl", "chunked", "close-delimited", "cl-conn-close", "204", "304", "100-then-200",
                   "204+stray-same-seg", "204+stray-later-seg", "eof-in-headers", "eof-in-body",
                   "cl-then-silent-close", "cl-then-unsolicited", "chunked-then-unsolicited", "304+stray-same-seg",
-                  "stall-in-body-rest-late", "stall-before-status-reply-late", "cl-2-now-rest-late", "chunked-1-now-rest-late"]
+                  "stall-in-body-rest-late", "stall-before-status-reply-late", "cl-2-now-rest-late", "chunked-1-now-rest-late",
+                  "chunked-bad-size-rest-late"]
 POST_BEHAVIOURS = ["cl", "eof-in-headers", "cl-then-unsolicited", "cl-then-silent-close", "204+stray-same-seg",
                    "stall-before-status-reply-late"]
 HEAD_BEHAVIOURS = ["head-cl", "head-cl+body-sent", "head-cl-conn-close", "head-chunked"]
@@ -104,6 +105,12 @@ def reply(behaviour, i):
         e = evil(i)
         head = b"HTTP/1.1 200 OK\r\nTransfer-Encoding: chunked\r\n\r\n2\r\n" + p[:2] + b"\r\n"
         return head, [("LATE", b"%x\r\n" % len(e) + e + b"\r\n0\r\n\r\n")]
+    if behaviour == "chunked-bad-size-rest-late":
+        # one good chunk, then a diagnostic line where the next chunk size belongs (a gateway whose upstream died);
+        # its error page for THIS request follows later on the same connection. The exchange did not end cleanly:
+        # whatever reads the broken size line, the connection must never carry another request.
+        head = b"HTTP/1.1 200 OK\r\nTransfer-Encoding: chunked\r\n\r\n2\r\n" + p[:2] + b"\r\nupstream died\r\n"
+        return head, [("LATE", evil(i))]
     if behaviour == "stall-before-status-reply-late":
         return b"", [STALL, ("LATE", response(200, p))]
     if behaviour == "head-cl":
@@ -259,6 +266,8 @@ def execute(cfg, steps, acc=None, trace=None):
             want = payload(i) + evil(i)
         if steps[i][1] in ("cl-2-now-rest-late", "chunked-1-now-rest-late"):
             want = payload(i)[:2] + evil(i)
+        if steps[i][1] == "chunked-bad-size-rest-late":
+            want = payload(i)[:2]
         if not want.startswith(bytes(data)):
             viols.append(("foreign-bytes", {"behaviour": steps[i][1], "caller": steps[i][3], "method": method,
                                             "prev": steps[i - 1][1] if i else None, "prev_caller": steps[i - 1][3] if i else None},
